@@ -337,8 +337,9 @@ def eval_dyad_find(a, b, backend):
     elif is_dict(a):
         v = a.get(b)
         return KLONG_UNDEFINED if v is None else v
-    if is_list(b):
-        return bknp.asarray([i for i,x in enumerate(a) if backend.kg_equal(x, b)])
+    if is_list(b) or (bknp.isarray(a) and (a.ndim > 1 or a.dtype == 'O')):
+        # members that are lists (rows of a matrix, nested lists) are compared as wholes
+        return bknp.asarray([i for i,x in enumerate(a) if backend.kg_equal(x, b)], dtype=int)
     return bknp.where(bknp.asarray(a) == b)[0]
 
 
